@@ -414,7 +414,7 @@ def stream_api(ctx, pq, w, root, enums, structs, specs_names):
     rng = ctx.rng
     n = 500 if ctx.quick() else 6000
     g = Gen(rng, enums, structs, specs_names, "main")
-    trees = corpus_trees()
+    trees = corpus_trees() + large_trees(rng)
     ctx.extra["corpus_cases"] = len(trees)
     for i in range(n):
         rootname = ROOTS[i % len(ROOTS)]
@@ -425,7 +425,7 @@ def stream_api(ctx, pq, w, root, enums, structs, specs_names):
     keep = []
     for tr, e in zip(trees, encs):
         if len(bytes(e[1])) > cap_lo(tr):
-            oversize_case(ctx, pq, root, tr, len(bytes(e[1])), "api")
+            oversize_case(ctx, pq, root, tr, len(bytes(e[1])), "api")       # may still fit (key-value text enlarges the buffer)
         else:
             keep.append(tr)
     trees = keep
@@ -535,6 +535,33 @@ def stream_pickle(ctx, w, enums, structs, specs_names):
         if r[0] != "ok" or not r[1][0]:
             ctx.fail({"component": "pickle", "kind": "not-equal" if r[0] == "ok" else "crash-or-exception", "stream": "pickle", "root": tr[1]},
                      case, "pickle.loads(pickle.dumps(x)) != x: %r" % (r[:2],))
+
+
+def large_trees(rng):
+    """deterministic shapes for "any number of row groups, columns and key-value entries ... payloads up to megabytes":
+    2000 columns x 1 row group x 500 key-values, and a 1 MB key-value payload (both inside the buffer rule of FileMetaData)"""
+    def se(name):
+        return ("struct", "SchemaElement", [(1, "type", ("enum", "Type"), ("enum", 2)), (4, "name", "FString", ("str", name))])
+
+    def cc(i):
+        cmd = ("struct", "ColumnMetaData", [
+            (1, "type", ("enum", "Type"), ("enum", 2)), (2, "encodings", ("list", ("enum", "Encoding")), ("list", ("enum", "Encoding"), [("enum", 0), ("enum", 3)])),
+            (3, "path_in_schema", ("list", "FString"), ("list", "FString", [("str", b"col%04d" % i)])), (4, "codec", ("enum", "CompressionCodec"), ("enum", 1)),
+            (5, "num_values", "FI64", ("i64", 1000 + i)), (6, "total_uncompressed_size", "FI64", ("i64", 8000)), (7, "total_compressed_size", "FI64", ("i64", 4000 + i)),
+            (9, "data_page_offset", "FI64", ("i64", 4 + 4000 * i))])
+        return ("struct", "ColumnChunk", [(2, "file_offset", "FI64", ("i64", 4 + 4000 * i)), (3, "meta_data", ("struct", "ColumnMetaData"), cmd)])
+
+    def fmd(ncols, nkv, kvlen):
+        schema = [("struct", "SchemaElement", [(4, "name", "FString", ("str", b"schema")), (5, "num_children", "FI32", ("i32", ncols))])]
+        schema += [se(b"col%04d" % i) for i in range(ncols)]
+        rg = ("struct", "RowGroup", [(1, "columns", ("list", ("struct", "ColumnChunk")), ("list", ("struct", "ColumnChunk"), [cc(i) for i in range(ncols)])),
+                                      (2, "total_byte_size", "FI64", ("i64", 8000 * ncols)), (3, "num_rows", "FI64", ("i64", 1000))])
+        kv = [("struct", "KeyValue", [(1, "key", "FString", ("str", b"key%d" % i)), (2, "value", "FString", ("str", bytes([97 + i % 26]) * kvlen))]) for i in range(nkv)]
+        return ("struct", "FileMetaData", [(1, "version", "FI32", ("i32", 1)), (2, "schema", ("list", ("struct", "SchemaElement")), ("list", ("struct", "SchemaElement"), schema)),
+                                           (3, "num_rows", "FI64", ("i64", 1000)), (4, "row_groups", ("list", ("struct", "RowGroup")), ("list", ("struct", "RowGroup"), [rg])),
+                                           (5, "key_value_metadata", ("list", ("struct", "KeyValue")), ("list", ("struct", "KeyValue"), kv)),
+                                           (6, "created_by", "FString", ("str", b"C10 large"))])
+    return [fmd(2000, 500, 10), fmd(2, 1, 1000000)]
 
 
 def corpus_trees():
